@@ -15,6 +15,7 @@ import (
 	"github.com/cbeuw/Cloak/internal/client"
 	"github.com/cbeuw/Cloak/internal/common"
 	mux "github.com/cbeuw/Cloak/internal/multiplex"
+	"golang.org/x/crypto/curve25519"
 )
 
 func init() { scenarios["C20"] = c20 }
@@ -27,7 +28,10 @@ func init() { scenarios["C20"] = c20 }
 // client.ParseConfig(optionString) for the other, then RawConfig.ProcessRawConfig.  T rows (ops "cfg.*") are
 // compared with the Lean model.  The monitor is the README's description of each option evaluated on the
 // processed structs, independent of the model; plus: both syntaxes give the same RawConfig; invalid or
-// incomplete configurations give an error, never a panic.
+// incomplete configurations give an error, never a panic.  Further: configuration files whose top-level JSON value is
+// not an object (null, [], "x", ...) must end in an error, never in a nil configuration with a nil error; the first
+// connection made with an accepted configuration (makeAuthenticationPayload) must not panic; the server name `random`
+// must not be sent literally; a value with an escaped semicolon must mean the same in both syntaxes.
 
 type c20Opt struct {
 	key  string
@@ -83,7 +87,12 @@ func (c c20Conf) toJSON() string {
 // the option string as Shadowsocks plugin hosts build it: key=value; with '=' of the value escaped
 func (c c20Conf) toSSV() string {
 	var b strings.Builder
-	esc := func(s string) string { return strings.ReplaceAll(s, "=", `\=`) }
+	// SIP003 plugin-option escaping: `\` -> `\\`, `=` -> `\=`, `;` -> `\;` (the three pairs ssvToJson's unescape names)
+	esc := func(s string) string {
+		s = strings.ReplaceAll(s, `\`, `\\`)
+		s = strings.ReplaceAll(s, "=", `\=`)
+		return strings.ReplaceAll(s, ";", `\;`)
+	}
 	for _, o := range c {
 		var v string
 		switch o.kind {
@@ -290,6 +299,83 @@ func c20Monitor(o *outw, conf c20Conf, r *c20Result, ctxd map[string]any) {
 	if p, ok := r.auth.ServerPubKey.(*[32]byte); !ok || p == nil || !reflect.DeepEqual(p[:], conf.get("PublicKey").y) {
 		hit("public-key", fmt.Sprint(r.auth.ServerPubKey), hx(conf.get("PublicKey").y))
 	}
+}
+
+// c20SNI parses the server_name extension out of a TLS ClientHello record ("" if absent / malformed)
+func c20SNI(rec []byte) string {
+	if len(rec) < 5+4+2+32+1 || rec[0] != 22 || rec[5] != 1 {
+		return ""
+	}
+	b := rec[5+4+2+32:]
+	skip := func(lenBytes int) bool {
+		if len(b) < lenBytes {
+			return false
+		}
+		n := 0
+		for i := 0; i < lenBytes; i++ {
+			n = n<<8 | int(b[i])
+		}
+		if len(b) < lenBytes+n {
+			return false
+		}
+		b = b[lenBytes+n:]
+		return true
+	}
+	if !skip(1) || !skip(2) || !skip(1) || len(b) < 2 { // session id, cipher suites, compression methods
+		return ""
+	}
+	b = b[2:]
+	for len(b) >= 4 {
+		typ, n := int(b[0])<<8|int(b[1]), int(b[2])<<8|int(b[3])
+		if len(b) < 4+n {
+			return ""
+		}
+		ext := b[4 : 4+n]
+		b = b[4+n:]
+		if typ == 0 && len(ext) >= 5 && ext[2] == 0 {
+			l := int(ext[3])<<8 | int(ext[4])
+			if len(ext) >= 5+l {
+				return string(ext[5 : 5+l])
+			}
+		}
+	}
+	return ""
+}
+
+// the small-order points of curve25519 (X25519 yields the all-zero secret for every private key and
+// curve25519.X25519 answers "bad input point: low order point"); bit 255 is ignored by X25519
+func c20LowOrder() [][]byte {
+	p := func(d int) []byte { // p + d, p = 2^255 - 19, little endian
+		b := make([]byte, 32)
+		for i := range b {
+			b[i] = 0xff
+		}
+		b[0], b[31] = byte(0xed+d), 0x7f
+		return b
+	}
+	base := [][]byte{
+		make([]byte, 32),
+		append([]byte{1}, make([]byte, 31)...),
+		unhx("e0eb7a7c3b41b8ae1656e3faf19fc46ada098deb9c32b1fd866205165f49b800"),
+		unhx("5f9c95bca3508c24b1d0b1559c83ef5b04445cc4581c8e86d8224eddd09f1157"),
+		p(-1), p(0), p(1),
+	}
+	var out [][]byte
+	for _, pt := range base {
+		out = append(out, pt)
+		hb := append([]byte(nil), pt...)
+		hb[31] |= 0x80
+		out = append(out, hb)
+	}
+	return out
+}
+
+// does X25519 refuse this public value (independent of Cloak: the library directly, with a clamped scalar)
+func c20DHFails(pk []byte) bool {
+	sc := make([]byte, 32)
+	sc[0], sc[31] = 8, 64
+	_, err := curve25519.X25519(sc, pk)
+	return err != nil
 }
 
 var c20Optional = []string{"NumConn", "AlternativeNames", "UDP", "BrowserSig", "Transport", "CDNOriginHost", "CDNWsUrlPath", "StreamTimeout", "KeepAlive"}
@@ -505,6 +591,187 @@ func c20(c *ctx) {
 		}
 		o.T("cfg.ssv s="+hx([]byte(s)), hx(out))
 		o.stat("random_option_strings", 1)
+	}
+	// (5) configuration FILES whose top-level JSON value is not an object, and the empty object: an error, never a
+	// nil configuration with a nil error (cmd/ck-client dereferences the result right away), never a panic
+	docs := []struct{ text, kind string }{{"null", "null"}, {" null\n", "null"}, {"[]", "other"}, {`"x"`, "other"}, {"42", "other"}, {"true", "other"},
+		{"", "other"}, {"{", "other"}, {`[{"ServerName":"a.b"}]`, "other"}, {"nul", "other"}, {"{}", "object"}, {`{"ServerName":null}`, "object"}}
+	for _, d := range docs {
+		p := "c20_doc.json"
+		if err := os.WriteFile(p, []byte(d.text), 0o600); err != nil {
+			continue
+		}
+		var raw *client.RawConfig
+		var err error
+		var pan string
+		func() {
+			defer func() {
+				if x := recover(); x != nil {
+					pan = fmt.Sprint(x)
+				}
+			}()
+			raw, err = client.ParseConfig(p)
+		}()
+		os.Remove(p)
+		det := map[string]any{"file_content": d.text}
+		switch {
+		case pan != "":
+			o.V("C20 panic parsing document", map[string]any{"panic": pan, "file_content": d.text})
+		case err != nil:
+			if d.kind == "object" {
+				o.V("C20 valid-json-object-unparsable", map[string]any{"error": err.Error(), "file_content": d.text})
+			} else {
+				o.T("cfg.doc kind="+d.kind, "parse-error")
+			}
+		case raw == nil:
+			// ParseConfig answered (nil, nil): "no error", and there is no configuration; ck-client's next statement reads raw.RemoteHost
+			det["ParseConfig_returned"] = "(nil, nil)"
+			det["then"] = "cmd/ck-client reads rawConfig.RemoteHost / .LocalHost of the nil *RawConfig: nil pointer dereference instead of an error"
+			o.V("C20 invalid-config-accepted "+d.kind+"-document", det)
+			if d.kind != "object" {
+				o.T("cfg.doc kind="+d.kind, "nil-config")
+			}
+		default:
+			res := c20Process(*raw)
+			if d.kind == "object" {
+				o.T(c20Op(raw), res.show())
+			} else {
+				o.T("cfg.doc kind="+d.kind, res.show())
+			}
+			if res.panic != "" {
+				o.V("C20 panic processing", map[string]any{"panic": res.panic, "file_content": d.text})
+			} else if res.ok {
+				o.V("C20 invalid-config-accepted "+d.kind+"-document", map[string]any{"file_content": d.text, "processed": res.show()})
+			}
+		}
+		o.case_("doc "+d.text, true)
+	}
+	// (6) a value that contains a semicolon: JSON keeps it; the option string carries it as `\;` (the escape ssvToJson's own
+	// unescape table names).  Known open finding: the string is split AFTER unescaping.
+	for i, path := range []string{"/ws;v=1", "/a;b", "/x;y=1;z=2"} {
+		conf := c20Gen(r, 0)
+		conf = append(conf, c20Opt{key: "Transport", kind: 's', s: "CDN"}, c20Opt{key: "CDNWsUrlPath", kind: 's', s: path})
+		js, ssv := conf.toJSON(), conf.toSSV()
+		o.T("cfg.ssv s="+hx([]byte(ssv)), hx(client.VerifC20SsvToJson(ssv)))
+		raw1, e1 := parseJSON(js, i == 0)
+		var raw2 *client.RawConfig
+		var e2 error
+		var pan string
+		func() {
+			defer func() {
+				if x := recover(); x != nil {
+					pan = fmt.Sprint(x)
+				}
+			}()
+			raw2, e2 = client.ParseConfig(ssv)
+		}()
+		if pan != "" {
+			o.V("C20 panic parsing", map[string]any{"panic": pan, "json": js, "option_string": ssv})
+			continue
+		}
+		if e1 != nil {
+			o.V("C20 valid-config-rejected", map[string]any{"error": e1.Error(), "json": js})
+			continue
+		}
+		if e2 != nil || raw2 == nil || !reflect.DeepEqual(raw1, raw2) {
+			got := fmt.Sprint(e2)
+			if e2 == nil && raw2 != nil {
+				got = fmt.Sprintf("%+v", *raw2)
+			}
+			o.V("C20 syntaxes-differ escaped-semicolon-in-value", map[string]any{"json": js, "option_string": ssv, "from_json_CDNWsUrlPath": raw1.CDNWsUrlPath,
+				"from_option_string": got, "ssvToJson": string(client.VerifC20SsvToJson(ssv))})
+		}
+		res := c20Process(*raw1)
+		o.T(c20Op(raw1), res.show())
+		if res.ok {
+			c20Monitor(o, conf, &res, map[string]any{"json": js, "syntax": "json"})
+		}
+		o.case_("semicolon "+path, true)
+	}
+	// (7) the first connection made with an accepted configuration must not crash the client: PublicKey values that
+	// X25519 refuses (small-order points; 32 zero bytes is the natural placeholder) against ordinary keys
+	nConn := 0
+	keys := c20LowOrder()
+	for i := 0; i < 10; i++ {
+		keys = append(keys, r.bytes(32))
+	}
+	for i, pk := range keys {
+		conf := c20Gen(r, r.intn(1<<len(c20Optional)))
+		conf.get("PublicKey").y = pk
+		js := conf.toJSON()
+		raw, err := parseJSON(js, false)
+		if err != nil {
+			continue
+		}
+		res := c20Process(*raw)
+		o.T(c20Op(raw), res.show())
+		if !res.ok {
+			continue // rejected with an error: fine for a key X25519 refuses
+		}
+		fails := c20DHFails(pk)
+		pan := client.VerifC20FirstPayload(res.auth)
+		out := "proceeds"
+		if pan != "" {
+			out = "panics"
+		}
+		o.T(strings.Replace(c20Op(raw), "cfg.process", "cfg.connect", 1)+" dhfails="+c20b(fails), out)
+		nConn++
+		if pan != "" {
+			sig := "C20 panic first-connection"
+			if fails {
+				sig = "C20 invalid-config-crashes low-order-public-key"
+			}
+			o.V(sig, map[string]any{"json": js, "PublicKey_hex": hx(pk), "ProcessRawConfig": "accepted (no error)", "first_connection": "makeAuthenticationPayload: panic: " + pan})
+		}
+		o.case_(fmt.Sprintf("connect %d", i), true)
+	}
+	o.stat("first_connections", nConn)
+	// (8) ServerName: `random` (any case) is documented to be randomised for every connection; any other name is sent as is
+	for _, tr := range []string{"direct", "CDN"} {
+		for _, name := range []string{"random", "RANDOM", "Random", "www.bing.com"} {
+			for _, bs := range []string{"chrome", "firefox", "safari"} {
+				if tr == "CDN" && bs != "chrome" {
+					continue
+				}
+				conf := c20Gen(r, 0)
+				conf.get("ServerName").s = name
+				conf = append(conf, c20Opt{key: "Transport", kind: 's', s: tr}, c20Opt{key: "BrowserSig", kind: 's', s: bs})
+				js := conf.toJSON()
+				raw, err := parseJSON(js, false)
+				if err != nil {
+					continue
+				}
+				res := c20Process(*raw)
+				if !res.ok {
+					o.V("C20 valid-config-rejected", map[string]any{"error": res.errCls, "json": js})
+					continue
+				}
+				var snis []string
+				literal := 0
+				for k := 0; k < 3; k++ {
+					sni := c20SNI(client.VerifC20ClientHello(res.remote.Transport, res.auth))
+					snis = append(snis, sni)
+					if sni == res.auth.MockDomain {
+						literal++
+					}
+				}
+				out := "fresh"
+				if literal == 3 {
+					out = "literal"
+				} else if literal != 0 {
+					out = "mixed"
+				}
+				o.T(strings.Replace(c20Op(raw), "cfg.process", "cfg.sni", 1), out)
+				d := map[string]any{"json": js, "server_names_of_three_connections": snis, "transport": tr}
+				switch {
+				case strings.EqualFold(name, "random") && literal > 0:
+					o.V("C20 servername-random-not-randomised "+strings.ToLower(tr), d)
+				case !strings.EqualFold(name, "random") && literal != 3:
+					o.V("C20 server-name-not-sent", d)
+				}
+				o.case_("sni "+tr+" "+name+" "+bs, true)
+			}
+		}
 	}
 	o.stat("configs", idx+1)
 	o.stat("configs_with_positive_keepalive", nKA)
